@@ -195,12 +195,23 @@ fn universe(w: &World) -> Universe {
 
 const F1_AMOUNTS: [&str; 7] = ["0.000000000000000001", "0.5", "1", "2", "10", "999.999999999999999999", "1000"];
 
+/// A leaf, biased to those a placement can satisfy (held resources and ids, caller badges).
+fn pick_leaf(g: &mut Gen, u: &Universe) -> ResourceOrNonFungible {
+    let i = match g.weighted(&[4, 3, 3, 5]) {
+        0 => g.index(4),
+        1 => 6 + g.index(3),
+        2 => 13 + g.index(12),
+        _ => g.index(u.leaves.len()),
+    };
+    u.leaves[i].clone()
+}
+
 fn gen_leaves(g: &mut Gen, u: &Universe, max: usize) -> Vec<ResourceOrNonFungible> {
     // distinct entries (the meaning of a repeated entry in count_of is not documented)
     let n = g.below(max as u64 + 1) as usize;
     let mut out: Vec<ResourceOrNonFungible> = Vec::new();
     for _ in 0..n {
-        let l = g.pick(&u.leaves).clone();
+        let l = pick_leaf(g, u);
         if !out.contains(&l) {
             out.push(l);
         }
@@ -210,7 +221,7 @@ fn gen_leaves(g: &mut Gen, u: &Universe, max: usize) -> Vec<ResourceOrNonFungibl
 
 fn gen_basic(g: &mut Gen, u: &Universe) -> BasicRequirement {
     match g.weighted(&[6, 4, 4, 3, 3]) {
-        0 => BasicRequirement::Require(g.pick(&u.leaves).clone()),
+        0 => BasicRequirement::Require(pick_leaf(g, u)),
         1 => {
             let res = *g.pick(&[u.f0, u.f1, u.nfa, u.nfb, u.absent_f]);
             let amount = if res == u.f1 {
@@ -243,11 +254,11 @@ fn gen_composite(g: &mut Gen, u: &Universe, depth: usize, max_depth: usize, budg
     } else {
         2
     };
-    match g.weighted(&[4, w_branch, w_branch]) {
+    match g.weighted(&[4, w_branch + w_branch / 2, w_branch]) {
         0 => CompositeRequirement::BasicRequirement(gen_basic(g, u)),
         k => {
             let deep_chain = g.chance(1, 10);
-            let want = if deep_chain { 1 } else { g.below(5) as usize };
+            let want = if deep_chain { 1 } else if g.chance(1, 12) { 0 } else { 1 + g.below(4) as usize };
             let mut children = Vec::new();
             for _ in 0..want {
                 if *budget == 0 {
@@ -534,17 +545,17 @@ fn case(g: &mut Gen) -> Outcome {
         let mut signers: Vec<NonFungibleGlobalId> = Vec::new();
         let mut signer_keys: Vec<PublicKey> = Vec::new();
         for i in [0usize, 2, 1] {
-            if g.chance(1, 3) {
+            if g.chance(1, 2) {
                 signers.push(w.accounts[i].badge());
                 signer_keys.push(w.accounts[i].key.public());
             }
         }
         let preview_assume_signatures = g.chance(1, 10);
         let mut tp_ops: Vec<TpOp> = Vec::new();
-        let n_tp = g.below(5);
+        let n_tp = g.below(7);
         let mut depth = 0usize;
         for _ in 0..n_tp {
-            let op = match g.weighted(&[12, if depth > 0 { 3 } else { 0 }, 1, 2, 1]) {
+            let op = match g.weighted(&[16, if depth > 0 { 2 } else { 0 }, 1, 2, 1]) {
                 0 => TpOp::Create(gen_spec(g, &u)),
                 1 => TpOp::PopDrop,
                 2 => TpOp::DropAll,
@@ -559,7 +570,7 @@ fn case(g: &mut Gen) -> Outcome {
             }
             tp_ops.push(op);
         }
-        let mid_proofs = if via == Via::Direct { vec![] } else { gen_specs(g, &u, 3) };
+        let mid_proofs = if via == Via::Direct { vec![] } else { gen_specs(g, &u, 4) };
         let mid_drops = via != Via::Direct && !mid_proofs.is_empty() && g.chance(1, 6);
         let owned_proofs = if via == Via::Owned { gen_specs(g, &u, 2) } else { vec![] };
         let callee_own = if matches!(shape, Shape::Assert | Shape::AssertInOwned) { gen_specs(g, &u, 2) } else { vec![] };
@@ -919,6 +930,6 @@ pub fn check() -> Check {
     .assume("resource-level requirements (require(resource), amount_of) over the virtual badge resources (signature, global caller, package of direct caller) are not generated: the documentation does not say whether implicit badges satisfy them")
     .assume("count_of lists hold distinct entries")
     .assume("proofs are created from an account whose owner rule is AllowAll, so that every frame can obtain them without further authorization")
-    .part(Part::new("rules", 6000, 300_000, 400, case))
+    .part(Part::new("rules", 20_000, 600_000, 400, case))
     .min_nontrivial_pct(15.0)
 }
